@@ -28,7 +28,7 @@ SALTS = ["S", "", "_x", "é", " "]
 def bounds(tier):
     return dict(wild_slots="every slot of every %s line form with %d fully symbolic Latin-1 characters (no line terminators), one slot at a time" % (
                     "base" if tier == "quick" else "generated", 1 if tier == "quick" else 2),
-                hash_shapes="$1$ + salt of 0..10 arbitrary characters + $ + body; $9$ + 1..%d arbitrary characters; netconan salts %r" % (3 if tier == "quick" else 6, SALTS),
+                hash_shapes="$1$ + salt of 0..10 arbitrary characters + $ + body; $9$ + 1..%d arbitrary characters, and $9$ strings of 7 characters with two arbitrary ones; netconan salts %r" % (3 if tier == "quick" else 6, SALTS),
                 address_shapes="IPv6-looking tokens 'fe80:' / '::' / '1:' + up to %d arbitrary characters, IPv4-looking tokens with symbolic digits" % (3 if tier == "quick" else 4),
                 enclosing_runs="bracket / quote runs up to 12 characters around a secret", words_and_as="sensitive-word and AS-number stages on lines of up to %d arbitrary characters" % (2 if tier == "quick" else 4))
 
@@ -51,6 +51,8 @@ def items(tier, seed):
     for k in range(1, (3 if tier == "quick" else 6) + 1):
         for si in range(len(SALTS)):
             out.append(Item("C14", "shape", dict(kind="j9", k=k, salt_idx=si), budget_s=400 if tier == "quick" else 2400, obligation="H2-malformed-hashes"))
+    for si in range(len(SALTS)):
+        out.append(Item("C14", "shape", dict(kind="j9mix", salt_idx=si), budget_s=400 if tier == "quick" else 2400, obligation="H2-malformed-hashes"))
     for runlen in (1, 4, 12):
         out.append(Item("C14", "shape", dict(kind="enclosing", run=runlen, salt_idx=0), budget_s=300, obligation="H3-enclosing-runs"))
     for start in ("fe80:", "::", "1:", ""):
@@ -146,6 +148,10 @@ def shape(item, res):
         # the salt *length* is what matters: one symbolic salt character, the rest concrete filler
         cs = [ord(c) for c in "enable secret 5 $1$"] + vs[:nsym] + [ord("a")] * (sl - nsym) + [36] + vs[nsym:] + [ord("h")] * 3 + [10]
         alpha = sec.NONSPACE
+    elif kind == "j9mix":
+        vs = [z3.BitVec("w%d" % i, 8) for i in range(2)]
+        cs = [ord(c) for c in "set secret \"$9$"] + [vs[0]] + [ord(c) for c in "Ab1"] + [vs[1]] + [ord(c) for c in "zQ"] + [ord('"'), 10]
+        alpha = NOLT
     elif kind == "j9":
         k = item.params["k"]
         vs = [z3.BitVec("w%d" % i, 8) for i in range(k)]
